@@ -1,7 +1,7 @@
 (* Executable form of C42, evaluated on what the IMPLEMENTATION did (correspondence step of props/C42.py).
    A case = chunkSize, allocSize, the client history, and the observations made by harness/h_poolalloc.cpp
-   on the real PoolAllocatorT: per operation (slab index, byte offset in the slab, allocFunc calls so far,
-   totalChunkCapacity()) -- slab = offset = -1 for dealloc/clear --, the slab indices passed to deallocFunc by
+   on the real PoolAllocatorT: per operation [ObA slab offset ncalls cap] (alloc: slab index, byte offset in the slab,
+   allocFunc calls so far, totalChunkCapacity()) or [ObN ncalls cap] (dealloc/clear), the slab indices passed to deallocFunc by
    the destructor in order, and the "byte patterns intact" flag. *)
 From Coq Require Import ZArith List Bool.
 From DV Require Import Base.MachInt Base.Corr Model.PoolAllocModel.
@@ -17,16 +17,24 @@ Definition oracle_pa (live : list Z) : Z := fold_right (fun b m => Z.max (b + sl
 Definition addr_slab (p : Z) : Z := p / slab_stride - 1.
 Definition addr_off (p : Z) : Z := p mod slab_stride.
 
-Definition obs := (Z * Z * Z * Z)%type.
+(* monomorphic constructors: the case files written by props/C42.py typecheck much faster than with tuples *)
+Inductive obs :=
+| ObA (slab off ncalls cap : Z)     (* alloc(): chunk position, allocFunc calls so far, totalChunkCapacity() *)
+| ObN (ncalls cap : Z).             (* dealloc / clear *)
+Definition obs_nc (o : obs) : Z := match o with ObA _ _ nc _ => nc | ObN nc _ => nc end.
 Definition obs_eqb (a b : obs) : bool :=
-  let '(a1, a2, a3, a4) := a in let '(b1, b2, b3, b4) := b in (a1 =? b1) && (a2 =? b2) && (a3 =? b3) && (a4 =? b4).
+  match a, b with
+  | ObA a1 a2 a3 a4, ObA b1 b2 b3 b4 => (a1 =? b1) && (a2 =? b2) && (a3 =? b3) && (a4 =? b4)
+  | ObN a3 a4, ObN b3 b4 => (a3 =? b3) && (a4 =? b4)
+  | _, _ => false
+  end.
 
 Definition model_obs (cs asz : Z) (x : ev * pa) : obs :=
   let nc := Z.of_nat (pa_ncalls (snd x)) in
   let cap := capacity cs asz (snd x) in
   match fst x with
-  | EvAlloc p _ => (addr_slab p, addr_off p, nc, cap)
-  | EvNone => (-1, -1, nc, cap)
+  | EvAlloc p _ => ObA (addr_slab p) (addr_off p) nc cap
+  | EvNone => ObN nc cap
   end.
 
 (* what the model predicts for a history: per-operation observations and the destructor's deallocFunc calls *)
@@ -53,19 +61,16 @@ Definition calls_ok (cpa_ prev nc nout : Z) : bool :=
 Fixpoint check_ops (cs asz cpa_ : Z) (ops : list op) (ol : list obs) (out : list (Z * Z)) (prev : Z) : option (bool * Z) :=
   match ops, ol with
   | [], [] => Some (true, prev)
-  | o :: ops', (s, off, nc, _) :: ol' =>
-      match o with
-      | Alloc =>
-          if chunk_ok cs asz nc out s off && calls_ok cpa_ prev nc (Z.of_nat (length out))
-          then check_ops cs asz cpa_ ops' ol' (out ++ [(s, off)]) nc
-          else Some (false, nc)
-      | Dealloc i =>
-          match take_nth i out with
-          | None => None
-          | Some (_, out') => if nc =? prev then check_ops cs asz cpa_ ops' ol' out' nc else Some (false, nc)
-          end
-      | Clear => if nc =? prev then check_ops cs asz cpa_ ops' ol' [] nc else Some (false, nc)
+  | Alloc :: ops', ObA s off nc _ :: ol' =>
+      if chunk_ok cs asz nc out s off && calls_ok cpa_ prev nc (Z.of_nat (length out))
+      then check_ops cs asz cpa_ ops' ol' (out ++ [(s, off)]) nc
+      else Some (false, nc)
+  | Dealloc i :: ops', ObN nc _ :: ol' =>
+      match take_nth i out with
+      | None => None
+      | Some (_, out') => if nc =? prev then check_ops cs asz cpa_ ops' ol' out' nc else Some (false, nc)
       end
+  | Clear :: ops', ObN nc _ :: ol' => if nc =? prev then check_ops cs asz cpa_ ops' ol' [] nc else Some (false, nc)
   | _, _ => None
   end.
 
@@ -74,15 +79,15 @@ Definition dtor_ok (nc : Z) (dl : list Z) : bool :=
   (Z.of_nat (length dl) =? nc) &&
   forallb (fun k => existsb (Z.eqb k) dl) (map Z.of_nat (seq 0 (Z.to_nat nc))).
 
-Definition last_ncalls (ol : list obs) : Z := match rev ol with (_, _, nc, _) :: _ => nc | [] => 0 end.
+Definition last_ncalls (ol : list obs) : Z := match rev ol with o :: _ => obs_nc o | [] => 0 end.
 
-Definition pa_case := (Z * Z * list op * list obs * list Z * bool)%type.
+Inductive pa_case := PC (cs asz : Z) (ops : list op) (ol : list obs) (dl : list Z) (intact : bool).
 
 (* 0 = implementation agrees with the model on every observation and the property holds on its output;
    1 = differs from the model but the property holds; 2 = the property fails on the implementation's output;
    3 = case outside the guarded domain / malformed (not judged) *)
 Definition judge_pa (c : pa_case) : Z :=
-  let '(cs, asz, ops, ol, dl, intact) := c in
+  let '(PC cs asz ops ol dl intact) := c in
   if negb ((1 <=? cs) && (cs <=? asz) && (asz <=? slab_stride)) then 3 else
   match check_ops cs asz (cpa cs asz) ops ol [] 0 with
   | None => 3
